@@ -7,6 +7,7 @@ import IwModel.Model.Pool
 import IwModel.Lemmas.Avl
 import IwModel.Lemmas.HMapRef
 import IwModel.Lemmas.Arr
+import IwModel.Lemmas.Ring
 /-!
 C18: containers behave as their plain reference models for every call sequence.
 
@@ -394,6 +395,112 @@ theorem sorted_remove_spec (a : List Int) (v : Int) (h : a.Pairwise (· ≤ ·))
     exact ⟨h, by simp [hm], fun hc => absurd rfl hc⟩
 
 end SORTED
+
+/-! ## Ring buffer (`iwrb.c`): reference = the last `len` puts -/
+section RING
+open Ring
+variable {α : Type}
+
+/-- after any history of puts on a ring of `len ≥ 1` cells, `iwrb_iter_prev` yields the last
+`min n len` values, newest first, and `iwrb_num_cached` is their number (the cursor-only `iwrb_back`
+is outside this statement: on a wrapped ring it does not behave like a pop, see the design notes) -/
+theorem ring_last_n (junk : α) (len : Nat) (hlen : 1 ≤ len) (xs : List α) :
+    iterAll (xs.foldl put (create junk len)) = xs.reverse.take len ∧
+    numCached (xs.foldl put (create junk len)) = min xs.length len := by
+  have := inv_fold len hlen xs (create junk len) [] (inv_create junk len)
+  simp only [List.nil_append] at this
+  exact iterAll_of_inv len _ xs this
+
+example : iterAll ([1, 2, 3, 4].foldl put (create 0 3)) = [4, 3, 2] := by decide
+
+end RING
+
+/-! ## Growable string and memory pool (`iwxstr.c`, `iwpool.c`) -/
+section XSTR
+open XStr
+
+theorem grow_ge (a n : Nat) : n ≤ grow a n := by unfold grow; split <;> (try split) <;> omega
+
+/-- calls of the `iwxstr` API that change the contents -/
+inductive XsOp where
+  | cat (b : Bytes) | unshift (b : Bytes) | shift (n : Nat) | pop (n : Nat) | insert (pos : Nat) (b : Bytes) | clear
+
+def xsStep (x : XStr) : XsOp → XStr
+  | .cat b => cat x b
+  | .unshift b => unshift x b
+  | .shift n => shift x n
+  | .pop n => pop x n
+  | .insert p b => (XStr.insert x p b).1
+  | .clear => clear x
+
+def xsRef : XsOp → Bytes → Bytes
+  | .cat b, d => d ++ b
+  | .unshift b, d => b ++ d
+  | .shift n, d => d.drop n
+  | .pop n, d => d.take (d.length - n)
+  | .insert p b, d => if p ≤ d.length then d.take p ++ b ++ d.drop p else d
+  | .clear, _ => []
+
+/-- `iwxstr`: every call edits the byte string like the reference list and the allocation always has room for
+the data plus the terminating NUL (`size < asize`), whatever the growth rule (double, or jump to the need) did -/
+theorem xstr_refines_bytes (x : XStr) (h : x.data.length < x.asize) (op : XsOp) :
+    (xsStep x op).data = xsRef op x.data ∧ (xsStep x op).data.length < (xsStep x op).asize := by
+  cases op with
+  | cat b =>
+    have := grow_ge x.asize (x.data.length + b.length + 1)
+    exact ⟨rfl, by simp [xsStep, cat]; omega⟩
+  | unshift b =>
+    have := grow_ge x.asize (x.data.length + b.length + 1)
+    exact ⟨rfl, by simp [xsStep, unshift]; omega⟩
+  | shift n =>
+    simp only [xsStep, xsRef, shift]
+    split
+    · rename_i h0; subst h0; exact ⟨by simp, h⟩
+    · exact ⟨rfl, by simp; omega⟩
+  | pop n =>
+    simp only [xsStep, xsRef, pop]
+    split
+    · rename_i h0; subst h0; exact ⟨by simp, h⟩
+    · exact ⟨rfl, by simp; omega⟩
+  | insert p b =>
+    show (XStr.insert x p b).1.data = (if p ≤ x.data.length then x.data.take p ++ b ++ x.data.drop p else x.data) ∧
+      (XStr.insert x p b).1.data.length < (XStr.insert x p b).1.asize
+    by_cases hp : p > x.data.length
+    · have e : XStr.insert x p b = (x, false) := by unfold XStr.insert; rw [if_pos hp]
+      rw [e, if_neg (by omega)]; exact ⟨rfl, h⟩
+    · by_cases hb : b.isEmpty = true
+      · have e : XStr.insert x p b = (x, true) := by unfold XStr.insert; rw [if_neg hp, if_pos hb]
+        have hb' : b = [] := by simpa using hb
+        rw [e, if_pos (by omega), hb']; exact ⟨by simp, h⟩
+      · have e : (XStr.insert x p b).1.data = x.data.take p ++ b ++ x.data.drop p ∧
+            (XStr.insert x p b).1.asize = grow x.asize (x.data.length + b.length + 1) := by
+          unfold XStr.insert; rw [if_neg hp, if_neg hb]; exact ⟨rfl, rfl⟩
+        have := grow_ge x.asize (x.data.length + b.length + 1)
+        rw [e.1, e.2, if_pos (by omega)]; exact ⟨rfl, by simp; omega⟩
+  | clear => exact ⟨rfl, by simp [xsStep, clear]; omega⟩
+
+end XSTR
+
+section POOL
+open Pool
+
+/-- `iwpool_alloc`: the block `[off, off + roundup siz)` lies inside the current unit, starts at or after
+everything handed out before from that unit (bump allocation: blocks never overlap), and is 8-aligned when the
+unit's fill level was -/
+theorem pool_alloc_bump (p : Pool.Pool) (siz : Nat) (h : p.usiz ≤ p.asiz) :
+    let r := alloc p siz
+    r.1.usiz ≤ r.1.asiz ∧ r.2.2 + roundup8 siz = r.1.usiz ∧
+    ((r.1.units = p.units ∧ r.2.2 = p.usiz) ∨ (r.1.units = p.units + 1 ∧ r.2.1 = p.units ∧ r.2.2 = 0)) := by
+  have hr : ∀ n, n ≤ roundup8 n := by
+    intro n; unfold roundup8 ALIGN; simp [Gen.C18.POOL_ALIGN]; omega
+  simp only [alloc]
+  split
+  · refine ⟨?_, by simp, Or.inr ⟨rfl, rfl, rfl⟩⟩
+    have := hr (p.usiz + roundup8 siz + p.asiz)
+    simp only; omega
+  · rename_i hc
+    exact ⟨by simp only; omega, rfl, Or.inl ⟨rfl, rfl⟩⟩
+end POOL
 
 /-! ## AVL tree (`iwavl.c`): reference = strictly increasing list of keys -/
 section AVL
